@@ -39,6 +39,7 @@ F = collections.OrderedDict([
     ("gt_0", lambda t, x: x > 0),
     ("where_gt0", lambda t, x: t.where(x > 0, x, 0)),
     ("tril", lambda t, x: t.tril(x)),
+    ("squeeze_dim0", lambda t, x: x.squeeze(0)),
     ("identity", lambda t, x: x.clone()),
 ])
 
@@ -87,21 +88,26 @@ def plan():
     st = explore.Stats()
     by_f = collections.OrderedDict()
     for _, case in explore.explore(_driver, bound=0, stats=st):
-        by_f.setdefault((case["f"], case["xdt"]), []).append(case)
-    items = [{"kind": "e2e", "fam": "e2e", "op": f"e2e:{f}", "part": xdt, "cases": cs} for (f, xdt), cs in by_f.items()]
+        by_f.setdefault(case["f"], []).append(case)
+    items = [{"kind": "e2e", "fam": "e2e", "op": f"e2e:{f}", "part": "", "cases": cs} for f, cs in by_f.items()]
     d = st.as_dict()
     d["dimensions"] = {k: len(v) for k, v in st.dim_hist.items()}
     return items, d
 
 
 def _module(torch, f, g):
-    ff = F[f]
+    ff = F[f] if f is not None else None
     if g == "-":
         class M1(torch.nn.Module):
             def forward(self, x):
                 return ff(torch, x)
         return M1()
     gg = G[g]
+    if ff is None:
+        class M0(torch.nn.Module):
+            def forward(self, a, y):
+                return gg(torch, a, y)
+        return M0()
 
     class M2(torch.nn.Module):
         def forward(self, x, y):
@@ -117,16 +123,11 @@ def _root(e):
     return chain
 
 
-def run_case(case):
+def run_module(m, args):
+    """-> (verdict, info): ok | skip:<reason> | e2e-export-fails | e2e-run-fails | e2e-dtype|shape|value|structure"""
     from vf import runeq
     from vf.props import c08_core as K
-    t = K.T()
-    torch = t["torch"]
-    x = K.make_value(["T", [2, 3], case["xdt"], "a"])
-    args = (x,)
-    if case["g"] != "-":
-        args = (x, K.make_value(["T", [2, 3], case["ydt"], "b"]))
-    m = _module(torch, case["f"], case["g"])
+    torch = K.T()["torch"]
     try:
         with torch.no_grad():
             expected = m(*[a.clone() for a in args])
@@ -169,35 +170,76 @@ def run_case(case):
     return "e2e-" + K.classify_diff(d), d
 
 
-def execute(item):
+def _tdesc(t):
     from vf.props import c08_core as K
+    from vf.props.c08_min import abstractions
+    sh = "(" + ",".join(str(d) for d in t.shape) + ")"
+    return f"{K.T()['dtname'].get(t.dtype, str(t.dtype))}{sh}"
+
+
+def execute(item):
+    """One item = one f: f(x) alone for each input dtype, then every g(f(x), y).  A composite that fails is
+    re-run as g(a, y) with a = eager f(x) fed as an input: failing the same way there attributes the finding to
+    g (key independent of f); composites of an f that fails alone are skipped (they carry no information)."""
+    from vf.props import c08_core as K
+    t = K.T()
+    torch = t["torch"]
     cases = item["cases"]
-    verdicts, infos = [], []
     outcomes = collections.Counter()
-    for cs in cases:
-        v, info = run_case(cs)
-        verdicts.append(v)
-        infos.append(info)
-        outcomes["e2e:" + v] += 1
-    decided = [i for i, v in enumerate(verdicts) if not v.startswith("skip:")]
-    feats = [{"g": cases[i]["g"], "ydt": cases[i]["ydt"]} for i in decided]
-    fails = [None if verdicts[i] == "ok" else verdicts[i] for i in decided]
-    classes = K.minimise_classes(feats, fails)
     viols = {}
-    for i, cl in zip(decided, classes):
-        if cl is None:
-            continue
-        key = f"C08|{verdicts[i]}|{item['op']}[x:{item['part']}]|{cl}"
+    nkeys = []
+    f_alone = {}
+    baseline = {}
+
+    def viol(key, cs, what):
         if key not in viols:
-            viols[key] = {"key": key, "detail": {"first_case": cases[i], "what": infos[i], "n": 0}}
+            viols[key] = {"key": key, "detail": {"first_case": cs, "what": what, "n": 0}}
         viols[key]["detail"]["n"] += 1
-    nkeys = ["e2e|" + json.dumps(cases[i], sort_keys=True) for i in decided]
-    status = "viol" if viols else ("ok" if decided else "skip")
-    res = {"status": status, "outcome": "+".join(sorted({v.split(":")[0] if v.startswith("skip") else v for v in verdicts})),
+
+    ordered = sorted(range(len(cases)), key=lambda i: (cases[i]["g"] != "-", i))
+    for i in ordered:
+        cs = cases[i]
+        x = K.make_value(["T", [2, 3], cs["xdt"], "a"])
+        if cs["g"] == "-":
+            v, info = run_module(_module(torch, cs["f"], "-"), (x,))
+            f_alone[cs["xdt"]] = v
+            outcomes["e2e:" + v] += 1
+            if v == "ok":
+                nkeys.append("e2e|" + json.dumps(cs, sort_keys=True))
+            elif not v.startswith("skip:"):
+                nkeys.append("e2e|" + json.dumps(cs, sort_keys=True))
+                viol(f"C08|{v}|e2e:{cs['f']}|x={cs['xdt']}", cs, info)
+            continue
+        fa = f_alone.get(cs["xdt"], "ok")
+        if fa != "ok":
+            outcomes["e2e:skip:f-alone-" + ("refused" if fa.startswith("skip:") else "fails")] += 1
+            continue
+        y = K.make_value(["T", [2, 3], cs["ydt"], "b"])
+        v, info = run_module(_module(torch, cs["f"], cs["g"]), (x, y))
+        outcomes["e2e:" + v] += 1
+        if v.startswith("skip:"):
+            continue
+        nkeys.append("e2e|" + json.dumps(cs, sort_keys=True))
+        if v == "ok":
+            continue
+        with torch.no_grad():
+            a = F[cs["f"]](torch, x.clone())
+        bk = (cs["g"], _tdesc(a), cs["ydt"])
+        if bk not in baseline:
+            baseline[bk] = run_module(_module(torch, None, cs["g"]), (a.contiguous().clone(), y))[0]
+            outcomes["e2e:baseline-g-alone:" + baseline[bk].split(":")[0]] += 1
+        if baseline[bk] == v:
+            viol(f"C08|{v}|e2e:g={cs['g']}|a={_tdesc(a)},y={cs['ydt']}", cs, info)
+        else:
+            viol(f"C08|{v}|e2e:{cs['f']}+{cs['g']}|x={cs['xdt']},y={cs['ydt']}", cs,
+                 f"g alone on the same operands: {baseline[bk]}; composite: {info}")
+    status = "viol" if viols else ("ok" if nkeys else "skip")
+    res = {"status": status,
+           "outcome": "+".join(sorted({k.split(":")[1] if k.split(":")[1] != "skip" else "skip" for k in outcomes})),
            "nkey": nkeys, "viols": list(viols.values()), "case_outcomes": dict(outcomes),
-           "counts": {"extra_evaluations": len(cases) - 1, "e2e_exports_compared": len(decided),
-                      "cases_skipped": len(cases) - len(decided), "cases_failed": sum(1 for f in fails if f)},
-           "show": f"{item['op']}[{item['part']}]: {len(cases)} modules, {dict(outcomes)}"}
+           "counts": {"extra_evaluations": len(cases) - 1, "e2e_exports_compared": len(nkeys),
+                      "cases_failed": sum(v["detail"]["n"] for v in viols.values())},
+           "show": f"{item['op']}: {len(cases)} modules, {dict(outcomes)}"}
     if status == "skip":
         res["skip"] = "all-cases-skipped:" + "+".join(sorted(outcomes))
     return res
